@@ -118,9 +118,26 @@ def _fold_eval(e: ast.expr, env: Dict[str, object], case: Tuple[int, bool], ctx:
     if isinstance(e, ast.Compare) and len(e.ops) == 1:
         l, r = as_lin(ev(e.left)), as_lin(ev(e.comparators[0]))
         d = Lin(l.a - r.a, l.b - r.b, l.c - r.c)
+        env.pop("__cmp_boundary__", None)
         if not d.is_const():
             if rzero and d.a == 0:
                 d = Lin(0, 0, d.c)
+            elif d.a == 0:
+                # 0 < r < 1 (open): the difference ranges over the open interval (lo, hi)
+                lo, hi = min(d.c, d.c + d.b), max(d.c, d.c + d.b)
+                op = e.ops[0]
+                res = None
+                if lo >= 0:
+                    res = {ast.Gt: True, ast.GtE: True, ast.Lt: False, ast.LtE: False, ast.Eq: False, ast.NotEq: True}.get(type(op))
+                elif hi <= 0:
+                    res = {ast.Gt: False, ast.GtE: False, ast.Lt: True, ast.LtE: True, ast.Eq: False, ast.NotEq: True}.get(type(op))
+                if res is None:
+                    raise Undecided("comparison of non-constant fold values")
+                # the threshold is the (excluded) end of the range: reached only through rounding, at r -> 0 or r -> 1
+                if lo == 0 or hi == 0:
+                    end = 0 if (lo == 0) == (d.b > 0) else 1
+                    env["__cmp_boundary__"] = end
+                return res
             else:
                 raise Undecided("comparison of non-constant fold values")
         op = e.ops[0]
@@ -153,6 +170,20 @@ def _fold_eval(e: ast.expr, env: Dict[str, object], case: Tuple[int, bool], ctx:
             c = ev(args[0])
             if not isinstance(c, bool):
                 raise Undecided("where condition is not decidable in the fold domain")
+            end = env.pop("__cmp_boundary__", None)
+            if end is not None and not rzero:
+                # a branch that is dead in exact arithmetic and only taken when rounding lands on the end of the range
+                # (a "round-off guard"): the value it substitutes must be the limit of the live branch there, or the
+                # guarded map jumps at that point
+                dead, live = (args[2], args[1]) if c else (args[1], args[2])
+                try:
+                    dv, lv = as_lin(ev(dead)), as_lin(ev(live))
+                    if dv.a == 0 and lv.a == 0:
+                        dlim, llim = dv.c + dv.b * end, lv.c + lv.b * end
+                        if dlim != llim:
+                            env.setdefault("__jump_guards__", []).append((e, float(llim), float(dlim)))
+                except Undecided:
+                    pass
             return ev(args[1]) if c else ev(args[2])
         if name in ("numpy.asarray", "numpy.array", "numpy.float64", "float", "builtins.float", "numpy.atleast_1d") and args:
             return ev(args[0])
@@ -251,8 +282,9 @@ def rule_d(ctx: Context, R: Reporter, bmap: FuncInfo):
         results = {}
         undecided = None
         inexact = []
+        jumps = []
         for case in CASES:
-            env: Dict[str, object] = {"__inexact__": inexact}
+            env: Dict[str, object] = {"__inexact__": inexact, "__jump_guards__": jumps}
             # the input coordinate, under any subscript spelling that selects index idxvar
             out = None
             try:
@@ -298,6 +330,15 @@ def rule_d(ctx: Context, R: Reporter, bmap: FuncInfo):
                     key=f"fold-exact:{role}:{norm_text(ix)[:40]}")
         if not inexact:
             R.check("C16.d", f"{role} fold: the unreduced coordinate only meets exact operations (floor, mod, its own floor subtracted)", True, bmap, lp.stmt, key=f"fold-exact:{role}")
+        seen_j = set()
+        for (je, llim, dlim) in jumps:
+            if norm_text(je) in seen_j or role == "periodic" and {llim, dlim} == {0.0, 1.0}:
+                continue  # periodic end points 0 and 1 are the same point
+            seen_j.add(norm_text(je))
+            R.check("C16.d", f"{role} fold: a round-off guard substitutes the limit of the value it guards", False, bmap, je,
+                    msg=f"{bmap.short}: `{unparse(je)[:70]}` is dead in exact arithmetic and fires only when rounding lands on the end of the range, where the guarded value tends "
+                        f"to {llim:g} but is replaced by {dlim:g}: the fold jumps there (e.g. a reflective coordinate of -1e-20 is mapped to 1 instead of 0)",
+                    key=f"fold-guard-jump:{role}:{norm_text(je)[:40]}")
         if undecided is not None:
             raise AnalysisError(f"C16.d: {role} fold not decidable in the fold domain: {undecided}")
         for case, got in results.items():
@@ -726,8 +767,26 @@ def rule_e(ctx: Context, R: Reporter, bmap: FuncInfo, pred: FuncInfo):
     R.floor("C16.e", "index-list arguments of boundary-helper calls", n, 4)
 
 
+def rule_f(ctx: Context, R: Reporter, bmap: FuncInfo, pred: FuncInfo):
+    """C16.f  the helpers are functions of their arguments only: neither mutates in place an object that is shared
+    across calls (the result of an lru_cache'd helper), so the answer for one call cannot depend on which index
+    sets earlier calls designated."""
+    from ..util import cached_result_mutations
+
+    n = 0
+    for f in (bmap, pred):
+        for (node, cf) in cached_result_mutations(ctx, f):
+            n += 1
+            R.check("C16.f", "no cached (shared) object is mutated in place by the boundary helpers", False, f, node,
+                    msg=f"{f.short}: `{unparse(node)[:60]}` mutates the object returned by the cached helper {cf.short}: the change persists in the cache, so later calls with other "
+                        f"periodic / reflective sets start from a coordinate set that earlier calls have already shrunk (coordinates silently stop being checked)",
+                    key=f"cached-mutation:{f.short}")
+    R.check("C16.f", "the boundary helpers keep no state between calls", n == 0, bmap, bmap.node, key="stateless")
+
+
 def run(ctx: Context, R: Reporter):
     bmap, pred = bounds_helpers(ctx)
+    R.guard(rule_f, ctx, R, bmap, pred)
     R.guard(rule_e, ctx, R, bmap, pred)
     R.guard(rule_a, ctx, R, bmap)
     R.guard(rule_b, ctx, R, bmap)
@@ -754,6 +813,8 @@ def variants():
         Variant("d-reflect-parity-1", "bad", replace_expr(mc, f, "np.mod(n_reflect, 2.0) == 0", "np.mod(n_reflect, 2.0) == 1"), ["C16.d"]),
         Variant("d-reflect-no-flip", "bad", replace_expr(mc, f, "1.0 - remainder", "remainder"), ["C16.d"]),
         Variant("d-ceil", "bad", replace_expr(mc, f, "np.floor(val)", "np.ceil(val)"), ["C16.d"]),
+        Variant("d-roundoff-guard-jump", "bad", replace_stmt(mc, f, "remainder = val - n_reflect", "remainder = val - n_reflect\nremainder = np.where(remainder >= 1.0, 0.0, remainder)"), ["C16.d"], quick=True),
+        Variant("d-benign-dead-guard-same-limit", "benign", replace_stmt(mc, f, "remainder = val - n_reflect", "remainder = val - n_reflect\nremainder = np.where(remainder >= 1.0, 1.0, remainder)")),
         Variant("benign-remainder-mod1", "benign", replace_stmt(mc, f, "remainder = val - n_reflect", "remainder = val % 1.0"), quick=True),
         Variant("benign-periodic-floor", "benign", replace_expr(mc, f, "u[..., idx] % 1.0", "u[..., idx] - np.floor(u[..., idx])")),
         Variant("benign-rename", "benign", alpha_rename(mc, f, "n_reflect", "k_fold")),
